@@ -150,7 +150,8 @@ def rewrite(data, rng, how):
         main += data[pos:]
         files['main'] = bytes(main)
         # the parts carry the prolog's imports too (an included document needs its own xs:import elements)
-        imports = b''.join(b'\n' + data[a:b] for n, a, b in spans if n == 'import')
+        # ... and the per-document xs:defaultOpenContent, which applies to the types of the document it stands in
+        imports = b''.join(b'\n' + data[a:b] for n, a, b in spans if n in ('import', 'defaultOpenContent'))
         for k in range(1, parts):
             files[f'vkpart{k}.xsd'] = head + imports + bytes(moved[k]) + b'\n' + root_close
         return files
@@ -207,8 +208,84 @@ def reorder_imports(data, rng):
 
 
 # ---------------------------------------------------------------------------------------------
+def _tname(t, depth):
+    """A type by name, or the structure of an anonymous type."""
+    if t is None:
+        return None
+    if t.name:
+        return t.name
+    return ('anonymous', component_sig(t, depth + 1))
+
+
+def _facets(t):
+    out = []
+    for k, f in sorted((str(k), f) for k, f in getattr(t, 'facets', {}).items()):
+        v = getattr(f, 'value', None)
+        if v is None and hasattr(f, 'enumeration'):
+            v = [repr(x) for x in f.enumeration]
+        if hasattr(f, 'regexps'):
+            v = list(f.regexps)
+        out.append((k.rsplit('}', 1)[-1], repr(v)[:200]))
+    return tuple(out)
+
+
+def _attributes(group, depth):
+    out = []
+    for k, a in group.items():
+        if k is None:
+            out.append(('anyAttribute', tuple(getattr(a, 'namespace', ())), tuple(getattr(a, 'not_namespace', ())), a.process_contents))
+        else:
+            out.append((k, a.use, _tname(a.type, depth), a.default, a.fixed, bool(getattr(a, 'inheritable', False))))
+    return tuple(sorted(out, key=repr))
+
+
+def _particle(p, depth):
+    kind = type(p).__name__.replace('Xsd11', 'Xsd')
+    occ = (p.min_occurs, p.max_occurs)
+    if hasattr(p, 'model') and hasattr(p, 'iter_model'):
+        if depth > 6:
+            return ('group', p.model, occ, '...')
+        return ('group', p.model, occ, tuple(_particle(c, depth + 1) for c in p))
+    if hasattr(p, 'process_contents'):
+        return ('any', tuple(getattr(p, 'namespace', ())), tuple(getattr(p, 'not_namespace', ())), p.process_contents, occ)
+    return (kind, p.name, occ, _tname(p.type, depth) if p.ref is None else ('ref', p.ref.name), p.nillable, p.default, p.fixed,
+            tuple(sorted(i.name for i in p.identities)))
+
+
+def component_sig(c, depth=0):
+    """Observable structure of a component through the public component API (names stop the recursion)."""
+    kind = type(c).__name__.replace('Xsd11', 'Xsd')
+    if depth > 6:
+        return (kind, '...')
+    try:
+        if kind == 'XsdComplexType':
+            content = _particle(c.content, depth) if hasattr(c.content, 'iter_model') else ('simple', _tname(c.content, depth))
+            oc = getattr(c, 'open_content', None)
+            return (kind, c.mixed, c.abstract, c.derivation, c.base_type.name if c.base_type is not None else None,
+                    _attributes(c.attributes, depth), content,
+                    (oc.mode, tuple(oc.any_element.namespace) if oc.any_element is not None else None) if oc is not None else None,
+                    tuple(sorted(c.block or ())) if not isinstance(c.block, str) else c.block)
+        if kind == 'XsdElement':
+            return (kind,) + _particle(c, depth)[3:] + (c.abstract, c.substitution_group, str(c.block), str(c.final))
+        if kind == 'XsdAttribute':
+            return (kind, c.use, _tname(c.type, depth), c.default, c.fixed)
+        if kind == 'XsdAttributeGroup':
+            return (kind, _attributes(c, depth))
+        if kind == 'XsdGroup':
+            return (kind, _particle(c, depth))
+        if hasattr(c, 'facets'):
+            members = tuple(_tname(m, depth) for m in getattr(c, 'member_types', ()) or ())
+            item = _tname(getattr(c, 'item_type', None), depth) if hasattr(c, 'item_type') else None
+            return (kind, c.base_type.name if getattr(c, 'base_type', None) is not None else None, _facets(c), members, item)
+    except RecursionError:
+        raise
+    except Exception as e:   # a component that cannot be described is described by that fact
+        return (kind, 'undescribable', type(e).__name__)
+    return (kind,)
+
+
 def globals_sig(schema):
-    """Global components of the whole schema composition (all documents), W3C namespaces excluded."""
+    """Global components of the whole schema composition (all documents) with their structure, W3C namespaces excluded."""
     out = []
     for c in schema.maps.iter_globals():
         if isinstance(c, tuple):
@@ -216,7 +293,7 @@ def globals_sig(schema):
         name = c.name or ''
         if name.startswith('{http://www.w3.org/'):
             continue
-        out.append((type(c).__name__.replace('Xsd11', 'Xsd'), name))
+        out.append((type(c).__name__.replace('Xsd11', 'Xsd'), name, repr(component_sig(c))))
     return sorted(out)
 
 
@@ -461,6 +538,54 @@ COMPOSE_PROBES = [
 ]
 
 
+# XSD 1.1 only: properties given per schema document (defaultAttributes, defaultOpenContent, xpathDefaultNamespace,
+# blockDefault) apply to components wherever the documents that declare and use them are placed
+COMPOSE11 = {
+    'main.xsd': f'''<?xml version="1.0"?>
+<xs:schema xmlns:xs="{XS}" targetNamespace="urn:c:eleven" xmlns:m="urn:c:eleven" elementFormDefault="qualified"
+    defaultAttributes="m:Common" xpathDefaultNamespace="##targetNamespace" blockDefault="substitution">
+  <xs:include schemaLocation="inc11.xsd"/>
+  <xs:defaultOpenContent mode="suffix"><xs:any namespace="##other" processContents="skip"/></xs:defaultOpenContent>
+  <xs:element name="notes">
+    <xs:complexType defaultAttributesApply="false">
+      <xs:sequence><xs:element ref="m:note" maxOccurs="unbounded"/></xs:sequence>
+    </xs:complexType>
+    <xs:unique name="u"><xs:selector xpath="note"/><xs:field xpath="@id"/></xs:unique>
+  </xs:element>
+  <xs:element name="note" type="m:Note"/>
+  <xs:element name="memo" type="m:Memo" substitutionGroup="m:note"/>
+  <xs:complexType name="Note">
+    <xs:sequence><xs:element name="body" type="xs:string"/></xs:sequence>
+    <xs:attribute name="id" type="xs:int" use="required"/>
+  </xs:complexType>
+  <xs:complexType name="Memo" defaultAttributesApply="false">
+    <xs:complexContent><xs:extension base="m:Note"><xs:attribute name="urgent" type="xs:boolean"/></xs:extension></xs:complexContent>
+  </xs:complexType>
+  <xs:complexType name="Plain" defaultAttributesApply="false">
+    <xs:sequence><xs:element name="p" type="xs:string" minOccurs="0"/></xs:sequence>
+  </xs:complexType>
+  <xs:element name="plain" type="m:Plain"/>
+  <xs:attributeGroup name="Common">
+    <xs:attribute name="lang" type="xs:language"/>
+    <xs:attribute name="rev" type="xs:positiveInteger" default="1"/>
+  </xs:attributeGroup>
+</xs:schema>''',
+    'inc11.xsd': f'''<xs:schema xmlns:xs="{XS}" targetNamespace="urn:c:eleven" xmlns:m="urn:c:eleven" elementFormDefault="qualified"
+    defaultAttributes="m:Common">
+  <xs:complexType name="Extra"><xs:sequence><xs:element name="e" type="xs:int" minOccurs="0"/></xs:sequence></xs:complexType>
+  <xs:element name="extra" type="m:Extra"/>
+</xs:schema>''',
+}
+COMPOSE11_PROBES = [
+    '<m:notes xmlns:m="urn:c:eleven"><m:note id="1" lang="en" rev="2"><m:body>x</m:body></m:note><m:note id="2"><m:body>y</m:body></m:note></m:notes>',
+    '<m:notes xmlns:m="urn:c:eleven" lang="en"><m:note id="1"><m:body>x</m:body><o:other xmlns:o="urn:o"/></m:note>'
+    '<m:note id="1" rev="0"><m:body>y</m:body></m:note><m:memo id="3" urgent="true"><m:body>z</m:body></m:memo></m:notes>',
+    '<m:plain xmlns:m="urn:c:eleven" lang="en"><m:p>t</m:p><o:other xmlns:o="urn:o"/></m:plain>',
+    '<m:extra xmlns:m="urn:c:eleven" lang="it" rev="x"><m:e>5</m:e></m:extra>',
+    '<m:extra xmlns:m="urn:c:eleven"><o:other xmlns:o="urn:o"/></m:extra>',
+]
+
+
 def run_compose(spec, res):
     """A composition with imports, an include and forward references of every kind."""
     xmlschema = env.activate_repo()
@@ -476,6 +601,15 @@ def run_compose(spec, res):
         check_schema(res, xmlschema, cls, os.path.join(d, 'main.xsd'), COMPOSE_PROBES, rng, 'compose', version,
                      spec['rounds'], order_probe)
         shutil.rmtree(scratch, ignore_errors=True)
+    scratch = tempfile.mkdtemp(prefix='c09-')
+    d = os.path.join(scratch, 'compose11')
+    os.makedirs(d)
+    for name, text in COMPOSE11.items():
+        with open(os.path.join(d, name), 'w') as f:
+            f.write(text)
+    check_schema(res, xmlschema, xmlschema.XMLSchema11, os.path.join(d, 'main.xsd'), COMPOSE11_PROBES, rng, 'compose11', '1.1',
+                 spec['rounds'], order_probe)
+    shutil.rmtree(scratch, ignore_errors=True)
 
 
 def run_shard(spec, res):
